@@ -44,7 +44,7 @@ def _disc(f):
 def run(tier='quick'):
     prog = program.load()
     cg = callgraph.get(prog)
-    eff = effects.Effects(prog, cg)
+    eff = atomic.ResolvedEffects(prog, cg)
     chk = Check('C14', tier)
     chk.units = len(prog.tus)
     A1 = chk.rule('A1', 'on every path of a mutating operation nothing is executed after the first '
@@ -330,25 +330,60 @@ def creation_is_atomic(prog, cg, chk, A7):
 def multi_file_commit(prog, cg, eff, chk, A8):
     from . import c16
     n = 0
-    for f in prog.functions.values():
-        if f.is_pattern or f.body is None or not prog.in_repo(f.file):
-            continue
+    repo_funcs = [f for f in prog.functions.values()
+                  if not f.is_pattern and f.body is not None and prog.in_repo(f.file)]
+    callers = None
+
+    def callers_of(f):
+        nonlocal callers
+        if callers is None:
+            callers = {}
+            for g in repo_funcs:
+                for ed in cg.edges(g):
+                    if ed.node.get('kind') in ('CallExpr', 'CXXMemberCallExpr'):
+                        for t in ed.targets:
+                            callers.setdefault(t.key, []).append((g, ed.node))
+        return callers.get(f.key, [])
+
+    def bare_param(sp):
+        return sp is not None and len(sp) == 1 and isinstance(sp[0], tuple)
+
+    for f in repo_funcs:
         attaches = [s_ for s_ in eff.sites(f) if s_.stored_in is not None and s_.stored_in.kind == 'attach' and s_.binds]
-        files = [s_ for s_ in attaches if c16._sym_path(prog, f, s_.binds[0]) not in (None, (':memory:',))]
+        paths = [c16._sym_path(prog, f, s_.binds[0]) for s_ in attaches]
+        files = [sp for sp in paths if sp not in (None, (':memory:',))]
         if len(files) < 2:
             continue
-        n += 1
-        chk.analysed(f)
-        short = f.qualname.replace('djinterop::engine::', '')
         mains = [c16._sym_path(prog, f, arg) for g, node, arg in c16._open_sites(prog, cg, {f.key: (f, None, None)})]
-        if mains and all(m is not None and m != (':memory:',) for m in mains):
-            chk.ok(A8, '%s attaches %d files to a file-backed main database' % (short, len(files)), locstr(f.node))
-        else:
-            chk.violation(A8, '%s|multi-file commit without super-journal' % short, locstr(f.node),
-                          '%s opens an in-memory main database and attaches %d files: a transaction that writes both '
-                          '(create_track, track::update, set_key, set_sample_count, set_sample_rate on 1.x) is committed '
-                          'file by file, so a failure between the two leaves the m.db half committed although the call '
-                          'throws' % (short, len(files)))
+        # the connection belongs to the function that says which files it spans.  A helper that is handed the
+        # complete paths (`open_pair(m_db_path, p_db_path)`, shared by the creating and the loading function)
+        # stands for each of its callers, with the arguments in place of the parameters.
+        owners = [(f, mains)]
+        if all(bare_param(sp) for sp in files) and callers_of(f):
+            names = [p_.get('name') for p_ in f.params]
+            owners = []
+            for g, c in callers_of(f):
+                args = children(c)[1:]
+                gm = []
+                for m in mains:
+                    if bare_param(m) and m[0][1] in names and names.index(m[0][1]) < len(args):
+                        gm.append(c16._sym_path(prog, g, args[names.index(m[0][1])]))
+                    else:
+                        gm.append(m)
+                if not any(o.key == g.key for o, _ in owners):
+                    owners.append((g, gm))
+        for g, gm in owners:
+            n += 1
+            chk.analysed(g)
+            short = g.qualname.replace('djinterop::engine::', '')
+            if gm and all(m is not None and m != (':memory:',) for m in gm):
+                chk.ok(A8, '%s attaches %d files to a file-backed main database' % (short, len(files)), locstr(g.node))
+            else:
+                chk.violation(A8, '%s|multi-file commit without super-journal' % short, locstr(g.node),
+                              '%s opens an in-memory main database and attaches %d files: a transaction that writes both '
+                              '(create_track, track::update, set_key, set_sample_count, set_sample_rate on 1.x) is committed '
+                              'file by file, so a failure between the two leaves the m.db half committed although the call '
+                              'throws' % (short, len(files)))
     if n < 2:
         raise AnalysisBroken('A8: fewer than two functions attaching several files found (%d)' % n)
 
